@@ -422,7 +422,15 @@ def select__predicate(self: XPathToken, context: ta.ContextType = None) -> Itera
     if context is None:
         raise self.missing_context()
 
+    step = self[0]
+    while step.symbol == '[' and step.label != 'array':
+        step = step[0]
+    reverse = step is not self[0] and getattr(step, 'reverse_axis', False)
+
     for _ in self[0].select_with_focus(context):
+        if reverse:  # further predicates of a reverse axis step count from the far end too
+            context.position = context.size - context.position + 1
+
         if (self[1].label in ('axis', 'kind test') or self[1].symbol == '..') \
                 and not isinstance(context.item, XPathNode):
             raise self.error('XPTY0020')
